@@ -327,94 +327,95 @@ Theorem C16_no_node_id_means_first_signature :
 Proof. exact tool_verify_no_node_id. Qed.
 Print Assumptions C16_no_node_id_means_first_signature.
 
-(* FULL STATEMENT (does not hold of the model, hence of the code with the tool
-   semantics of DESIGN.md 4.3):
-     forall dupfail now s doc nm cert m,
-       s_kind s <> Inline -> s_cert s = true -> root_signed doc = true ->
-       load_source now (signed_source s dupfail doc nm cert) = Ok m ->
-       own_signature_ok doc nm cert = true.
-   Witness: the attacker's EntitiesDescriptor (no ID) carries Extensions holding
-   the federation's validly signed document, THEN a top-level Signature whose
-   value is garbage. *)
+(* FULL STATEMENT, for the repaired loader (proposed_fix/C16-3: the pre-check
+   sigver._enveloped_signature_ok(..., whole_document_ok=True) on the document
+   element before the tool is called; Model/MdSig.v md_precheck): a registered
+   source with a certificate and a signed root - the root's own signature
+   verified (own_signature_ok), namely: the first ds:Signature of the whole
+   document is the root's k-th child and its only Signature child, made with
+   the configured certificate's key, value intact, with a single Reference -
+   URI "" or "#" + the root's non-empty ID - whose digest is the whole document
+   minus that signature. *)
+Theorem C16_prechecked_loader_full :
+  forall dupfail now s doc nm cert m,
+    s_kind s <> Inline -> s_cert s = true -> root_signed doc = true ->
+    load_source now (signed_source_prechecked s dupfail doc nm cert) = Ok m ->
+    own_signature_ok doc nm cert = true /\
+    exists n i pl kids k u d,
+      doc = El n i pl kids /\ first_sig doc = Some [k] /\ count_sigs kids = 1%nat /\
+      nth_error kids k = Some (Sg [(u, d)] cert true) /\
+      (u = [] \/ exists v, i = Some v /\ v <> [] /\ u = HASH :: v) /\
+      tree_eqb d (remove_at [k] doc) = true.
+Proof. exact prechecked_loader_full. Qed.
+Print Assumptions C16_prechecked_loader_full.
+
+Theorem C16_precheck_refused_not_registered :
+  forall dupfail now s doc nm cert,
+    s_kind s <> Inline -> s_cert s = true -> root_signed doc = true -> md_precheck doc = false ->
+    exists x, load_source now (signed_source_prechecked s dupfail doc nm cert) = Err x.
+Proof. exact precheck_refused_not_registered. Qed.
+Print Assumptions C16_precheck_refused_not_registered.
+
+(* BEFORE that repair (signed_source_before_fix: the tool alone) the statement
+   failed.  Witnesses: the attacker's EntitiesDescriptor (no ID) carries
+   Extensions holding the federation's validly signed document, THEN a
+   top-level Signature whose value is garbage; and the genuine Signature MOVED
+   to the attacker's root with the genuine document parked without it.  The
+   repaired loader refuses both, and their URI "" variants. *)
 Definition N_ED : N := 1.   Definition N_EXT : N := 2.   Definition N_ENT : N := 3.
 Definition K_FED : N := 6.
 Definition genuine_unsigned : tree := El N_ED (Some (s2l "fed")) 10 [El N_ENT None 11 []].
 Definition genuine_signed : tree :=
   El N_ED (Some (s2l "fed")) 10 [Sg [(s2l "#fed", genuine_unsigned)] K_FED true; El N_ENT None 11 []].
+(* the same federation document signed with a whole-document Reference (URI ""), root without ID *)
+Definition genuine0_unsigned : tree := El N_ED None 10 [El N_ENT None 11 []].
+Definition genuine0_signed : tree :=
+  El N_ED None 10 [Sg [([], genuine0_unsigned)] K_FED true; El N_ENT None 11 []].
 Definition wrapped_doc : tree :=
   El N_ED None 20 [El N_EXT None 21 [genuine_signed];
                    Sg [(s2l "#fed", genuine_unsigned)] 0 false;
                    El N_ENT None 22 []].
-(* the second arrangement: the genuine Signature MOVED to the attacker's root,
-   the genuine document parked without it *)
 Definition wrapped_doc_moved : tree :=
   El N_ED None 20 [Sg [(s2l "#fed", genuine_unsigned)] K_FED true;
                    El N_EXT None 21 [genuine_unsigned];
                    El N_ENT None 22 []].
+(* URI "" variants: garbage whole-document signature after the parked original;
+   the genuine whole-document signature moved onto the attacker's root *)
+Definition wrapped0_doc : tree :=
+  El N_ED None 20 [El N_EXT None 21 [genuine_signed];
+                   Sg [([], genuine0_unsigned)] 0 false;
+                   El N_ENT None 22 []].
+Definition wrapped0_doc_moved : tree :=
+  El N_ED None 20 [Sg [([], genuine0_unsigned)] K_FED true;
+                   El N_EXT None 21 [genuine0_unsigned];
+                   El N_ENT None 22 []].
 Definition evil_source : source := remote_stub true [witness_entity].
 
-Theorem C16_signed_only_if_own_signature_verifies_refuted :
+Theorem C16_signed_only_if_own_signature_verifies_before_fix_refuted :
   exists dupfail now s doc nm cert m,
     s_kind s <> Inline /\ s_cert s = true /\ root_signed doc = true /\
-    load_source now (signed_source s dupfail doc nm cert) = Ok m /\ m <> [] /\
+    load_source now (signed_source_before_fix s dupfail doc nm cert) = Ok m /\ m <> [] /\
     own_signature_ok doc nm cert = false /\
-    (* ... while the genuine document alone is fine, and the second arrangement is accepted as well *)
-    own_signature_ok genuine_signed nm cert = true /\
-    (exists m', load_source now (signed_source s dupfail wrapped_doc_moved nm cert) = Ok m' /\ m' <> []) /\
-    own_signature_ok wrapped_doc_moved nm cert = false.
+    (exists m', load_source now (signed_source_before_fix s dupfail wrapped_doc_moved nm cert) = Ok m' /\ m' <> []) /\
+    own_signature_ok wrapped_doc_moved nm cert = false /\
+    (exists m', load_source now (signed_source_before_fix s dupfail wrapped0_doc nm cert) = Ok m' /\ m' <> []) /\
+    own_signature_ok wrapped0_doc nm cert = false /\
+    (* the repaired loader refuses all of them (the moved whole-document signature fails by digest in the tool) *)
+    Forall (fun d => exists x, load_source now (signed_source_prechecked s dupfail d nm cert) = Err x)
+           [doc; wrapped_doc_moved; wrapped0_doc; wrapped0_doc_moved] /\
+    md_precheck wrapped0_doc_moved = true /\
+    (* ... and accepts the genuine documents, Reference by ID and whole-document *)
+    Forall (fun d => own_signature_ok d nm cert = true /\
+                     exists m', load_source now (signed_source_prechecked s dupfail d nm cert) = Ok m' /\ m' <> [])
+           [genuine_signed; genuine0_signed].
 Proof.
   exists true, 0%Z, evil_source, wrapped_doc, N_ED, K_FED. eexists.
-  repeat split; try discriminate; try (vm_compute; reflexivity).
-  eexists. split; [vm_compute; reflexivity|discriminate].
+  repeat split; try discriminate; try (vm_compute; reflexivity);
+    try (eexists; split; [vm_compute; reflexivity|discriminate]).
+  - repeat constructor; eexists; vm_compute; reflexivity.
+  - repeat constructor; try (vm_compute; reflexivity); eexists; (split; [vm_compute; reflexivity|discriminate]).
 Qed.
-Print Assumptions C16_signed_only_if_own_signature_verifies_refuted.
-
-(* ... and holds whenever the first ds:Signature in document order is a child
-   of the root that refers to the root *)
-Theorem C16_signed_only_if_own_signature_verifies_partial :
-  forall dupfail now s doc nm cert m,
-    first_sig_is_own doc nm = true ->
-    s_kind s <> Inline -> s_cert s = true -> root_signed doc = true ->
-    load_source now (signed_source s dupfail doc nm cert) = Ok m ->
-    own_signature_ok doc nm cert = true.
-Proof. intros dupfail now s doc nm cert m Hown Hk Hc Hs Hl. exact (own_signature_partial _ _ _ _ _ _ _ Hk Hc Hs Hown Hl). Qed.
-Print Assumptions C16_signed_only_if_own_signature_verifies_partial.
-
-(* that hypothesis is what the enveloped-signature pre-check of
-   sigver._check_signature (Model/Xmlsec.v precheck) establishes when it is
-   asked about the root element and the root's own ID *)
-Theorem C16_enveloped_precheck_gives_hypothesis :
-  forall nm v pl kids,
-    precheck (El nm (Some v) pl kids) nm (Some v) = true ->
-    first_sig_is_own (El nm (Some v) pl kids) nm = true.
-Proof. exact precheck_root_first_sig_is_own. Qed.
-Print Assumptions C16_enveloped_precheck_gives_hypothesis.
-
-(* ... hence: were parse_and_check_signature to make that pre-check on the root
-   (name nm, ID v) before calling the tool, (4b) would hold in full *)
-Theorem C16_own_signature_verifies_under_precheck :
-  forall dupfail now s nm v pl kids cert m,
-    precheck (El nm (Some v) pl kids) nm (Some v) = true ->
-    s_kind s <> Inline -> s_cert s = true -> root_signed (El nm (Some v) pl kids) = true ->
-    load_source now (signed_source s dupfail (El nm (Some v) pl kids) nm cert) = Ok m ->
-    own_signature_ok (El nm (Some v) pl kids) nm cert = true.
-Proof.
-  intros dupfail now s nm v pl kids cert m Hpre Hk Hc Hs Hl.
-  exact (own_signature_partial _ _ _ _ _ _ _ Hk Hc Hs (precheck_root_first_sig_is_own _ _ _ _ Hpre) Hl).
-Qed.
-Print Assumptions C16_own_signature_verifies_under_precheck.
-
-(* (4c) NOT the code this check expects: the loader with the follow-up
-   proposed_fix/C16-2-after-C01-1 (pre-check of the root before the tool is
-   called, Model/MdSig.v signed_source_prechecked) satisfies (4b) in full for
-   a root element of the registered name *)
-Theorem C16_prechecked_loader_full :
-  forall dupfail now s nm i pl kids cert m,
-    s_kind s <> Inline -> s_cert s = true -> root_signed (El nm i pl kids) = true ->
-    load_source now (signed_source_prechecked s dupfail (El nm i pl kids) nm cert) = Ok m ->
-    own_signature_ok (El nm i pl kids) nm cert = true.
-Proof. exact prechecked_loader_full. Qed.
-Print Assumptions C16_prechecked_loader_full.
+Print Assumptions C16_signed_only_if_own_signature_verifies_before_fix_refuted.
 
 (* ---- (5) configuration round trip ------------------------------------------
    loading the descriptor generated from a configuration serves, for every role
@@ -482,9 +483,9 @@ Example C16_example :
   store_certs st (s2l "B") (s2l "any") U_ENCRYPTION = Ok [cert_b] /\
   store_keys (load_all 102 [] ex_federation) = [s2l "A"] /\
   load_outcomes 100 [] ex_federation = [None; Some (s2l "SignatureError"); None; Some SignatureError] /\
-  (* the partial theorem of (4b) is not vacuous: the genuine document has the shape and is accepted *)
-  first_sig_is_own genuine_signed N_ED = true /\
-  (exists m, load_source 0 (signed_source evil_source true genuine_signed N_ED K_FED) = Ok m) /\
-  precheck genuine_signed N_ED (Some (s2l "fed")) = true /\ precheck wrapped_doc N_ED None = false.
+  (* the hypotheses of C16_prechecked_loader_full are satisfiable: genuine documents pass the pre-check and load *)
+  md_precheck genuine_signed = true /\ md_precheck genuine0_signed = true /\
+  (exists m, load_source 0 (signed_source_prechecked evil_source true genuine0_signed N_ED K_FED) = Ok m) /\
+  md_precheck wrapped_doc = false /\ md_precheck wrapped_doc_moved = false /\ md_precheck wrapped0_doc = false.
 Proof. vm_compute. repeat split; try reflexivity. eexists; reflexivity. Qed.
 Print Assumptions C16_example.
